@@ -307,6 +307,17 @@ func check(c Case) hx.Verdict {
 			if g3 == nil || !model.Equal(g3, model.NewSeq(a, b)) {
 				return hx.Bad("", "overwriting the merge result changed an operand (shared nodes): `%s` gives %v, expected %s (err %q)", e3, js(g3), model.NewSeq(a, b).JSON(), o3.Err)
 			}
+			// ... and when there is nothing to merge in (a null, a missing key): the result is a value of its own then too
+			for _, rhs := range []string{"null", ".zz_missing", "{}"} {
+				e3n := "(.a " + op + " " + rhs + " | .. |= \"X\") as $junk | .a"
+				g3n, o3n := one(e3n, in, false)
+				if v := fail(o3n, e3n, in); v != nil {
+					return *v
+				}
+				if o3n.Err == "" && (g3n == nil || !model.Equal(g3n, a)) {
+					return hx.Bad("", "overwriting the result of a merge with nothing changed the left operand (shared nodes): `%s` gives %v, expected %s", e3n, js(g3n), a.JSON())
+				}
+			}
 			// a right operand whose sequences were rebuilt (here: stored reversed and reversed back inside the
 			// expression) is the same value and must merge the same way: elements are placed by where they are
 			if hasSeq(b) {
